@@ -522,7 +522,26 @@ def rule_f(ctx, out):
         raise AnalysisError(f"only {n} default arguments examined")
 
 
+def rule_g(ctx, out):
+    """The parser cuts an instruction list into blocks with a small state machine: the current block and its per-block tables are
+    created together and must be renewed together at every block boundary.  A boundary that starts a new block but keeps a table
+    lets the next block's content (PUSHLIB numbering) depend on the block before it."""
+    from ..core.idioms import co_renewed_state
+    n = 0
+    for f, loop, group, places in co_renewed_state(ctx, ("sfs_generator.", "gasol_asm", "solution_generation.", "greedy.", "smt_encoding.", "verification.")):
+        for stmts, renewed, missing in places:
+            n += 1
+            if missing:
+                out.bad(f"segment-state-not-renewed:{f.name}:{','.join(missing)}", f"{f.qual}: where {', '.join(renewed)} is renewed (a new segment starts) "
+                        f"{', '.join(missing)} is kept: the next segment inherits it", where(f, stmts[0]), {"group": group})
+            else:
+                out.ok({"function": f.qual, "renewed_together": renewed})
+    if n < 2:
+        raise AnalysisError(f"only {n} segment boundaries with co-renewed state found (parser_asm.build_blocks_from_asm_representation expected)")
+
+
 RULES = [
+    ("C12.g", "per-block parser state is renewed at every block boundary", 2, rule_g),
     ("C12.f", "no written mutable default argument", 20, rule_f),
     ("C12.e", "no other module keeps run-time state across blocks", 25, rule_e),
     ("C12.a", "no stale module global can reach a specification", 55, rule_a),
